@@ -787,10 +787,10 @@ def run(ctx):
         ctx.sample({'traced_definition': 't_grm_ZXY_0_1', 'coq': __import__('tracer.shim').shim.coq(g.by_name['t_grm_ZXY_0_1'][1])[:300]})
     ctx.log('B1 done: tie files compiled, translator self-check run')
     # B2
-    correspondence(ctx, gen_coq_cases(ctx, 1200 if ctx.thorough else 160))
+    correspondence(ctx, gen_coq_cases(ctx, 3000 if ctx.thorough else 160))
     ctx.log('B2 done: model executed in Coq on the generated cases')
     # direct oracles
-    run_oracles(ctx, 6 if ctx.thorough else 1)
+    run_oracles(ctx, 25 if ctx.thorough else 1)
     ctx.log('direct oracles done')
 
 
